@@ -184,13 +184,30 @@ def rule_r7(ctx: Ctx) -> None:
                 if not own and any(any(isinstance(x, ast.ExceptHandler) and x.lineno == h.lineno for x in ast.walk(g.node)) for g in fns):
                     continue
                 seen.add((mod.relpath, h.lineno))
-                if not h.name or not any(isinstance(c, ast.Call) and isinstance(c.func, ast.Attribute) and c.func.attr == "set_error_location_if_unknown" for s_ in h.body for c in ast.walk(s_)):
+                def stamps(body: Any, depth: int = 0) -> bool:
+                    """the body stamps a location - itself, or through a function of the package it hands the error to"""
+                    for s_ in body:
+                        for c in ast.walk(s_):
+                            if isinstance(c, ast.Call) and isinstance(c.func, ast.Attribute) and c.func.attr == "set_error_location_if_unknown":
+                                return True
+                            if isinstance(c, ast.Call) and depth < 2 and isinstance(c.func, (ast.Name, ast.Attribute)):
+                                try:
+                                    r_ = ctx.repo.resolve_expr(fn.module, c.func, fn.cls)
+                                except Exception:
+                                    r_ = None
+                                if type(r_).__name__ == "FuncInfo" and stamps(r_.node.body, depth + 1):
+                                    return True
+                    return False
+
+                if not h.name or not stamps(h.body):
                     continue
                 results = {}
                 for label, (p0, l0) in {"fresh": (None, None), "from another file, no line": (OTHER, None), "from another file, with line": (OTHER, 7), "line known, file not yet": (None, 3)}.items():
                     ex = construct(ctx, err, "text", p0, l0, hook=ctor_hook(ctx, None))
                     env: Dict[str, Any] = {h.name: ex}
                     for nm in {x.id for s_ in h.body for x in ast.walk(s_) if isinstance(x, ast.Name)} - {h.name}:
+                        if ctx.repo.module_member(fn.module.name, nm) is not None:
+                            continue  # a function / class / constant of the module: it means what it means there
                         env[nm] = _Tok(nm)
                     try:
                         Evaluator(env, ctx.repo, fn.module, fn.cls, ctor_hook(ctx, None)).run(list(h.body))
